@@ -132,10 +132,17 @@ class Env:
                 return 0
             return UNKNOWN
         if attr == "ballot_type":
+            # 0 default of the class, 1 base class of its side, 2 / 3 the same for the profile class of the same kind on
+            # the other side (a profile built from a multiprofile inherits the frozen ballot type and vice versa)
             if clsname in ATTRS and v is self.default_ballot_type(clsname):
                 return 0
             if v is self.ballot_type_value(clsname, 1):
                 return 1
+            oth = clsname.replace("MultiProfile", "Profile") if "Multi" in clsname else clsname.replace("Profile", "MultiProfile")
+            if v is self.default_ballot_type(oth):
+                return 2
+            if v is self.ballot_type_value(oth, 1):
+                return 3
             return UNKNOWN
         if attr == "details":
             if v is None:
@@ -352,6 +359,11 @@ def apply_op(env, cur, other, els, op):
         return None
     if name == "remove_satisfied":
         return cur.remove_satisfied({"s0": 1, "s1": 1, "": 1}, [env.projects[0]])
+    if name == "xctor":
+        return env.cls[CLASSES[arg]](cur)
+    if name == "from_plain":
+        base = [b for b in (set, list, Counter, dict, tuple) if isinstance(cur, b)][0]
+        return type(cur)(base(cur))
     if name == "ctor_val":
         return type(cur)(cur, ballot_validation=bool(arg))
     if name == "inst_mut":
